@@ -112,6 +112,59 @@ theorem host_with_port (hn rest : List Char) (h : ':' ∉ hn) :
     hostOfChars (hn ++ ':' :: rest) = { hostname := String.ofList hn, port := parseU16 rest } := by
   simp [hostOfChars, splitOnce_append hn rest h]
 
+/-! ### `http::Uri` requests (feature `uri`) -/
+
+/-- T1: the scheme → port table of connect/uri.rs, re-translated arm by arm from the source by every
+check run, is the reference table of well-known ports (in particular `ws` 80 / `wss` 443, `http` 80 /
+`https` 443, `amqp` 5672 / `amqps` 5671, `mqtt` 1883 / `mqtts` 8883), and both `Host` impls (http 0.2,
+http 1) take the explicit port first and the host or `""` as hostname -/
+theorem uri_scheme_table :
+    (∀ sch, schemePort Src.tlsSchemePorts sch = schemePort wellKnownPorts sch) ∧
+    Src.tlsSchemePorts = wellKnownPorts ∧ Src.tlsUriShape.all (·.2) = true ∧ Src.tlsUriShape.length = 5 := by
+  have h : Src.tlsSchemePorts = wellKnownPorts := by decide
+  exact ⟨fun sch => by rw [h], h, by decide, by decide⟩
+
+/-- an explicit port in the URI always wins over the scheme's well-known port, whatever the table -/
+theorem uri_explicit_port_wins (table : List (String × Nat)) (sch host : Option String) (p : Nat) :
+    (hostOfUri table { scheme := sch, host := host, port := some p }).port = some p := rfl
+
+/-- without an explicit port the scheme decides; a scheme that is not listed (or no scheme) gives no
+port, and then — as for every `Host` without a port — the `set_port` value of the request counts -/
+theorem uri_default_port (table : List (String × Nat)) (sch host : Option String) :
+    (hostOfUri table { scheme := sch, host := host, port := none }).port = schemePort table sch ∧
+    (schemePort table sch = none → ∀ r : Req, r.host = hostOfUri table { scheme := sch, host := host, port := none } →
+      r.effPort = r.port) := by
+  refine ⟨rfl, ?_⟩
+  intro hn r hr
+  simp [Req.effPort, hr, hostOfUri, hn]
+
+/-- end to end for a `wss://name/` request through the connector: the resolver is asked for
+`(name, 443)`, and `wss://<ip literal>/` is dialled at `:443` — with the source's table -/
+theorem uri_wss_goes_to_443 (parseIp : String → Option String) (lookup : String → Nat → Lookup) (name : String) :
+    let r := Req.new (hostOfUri Src.tlsSchemePorts { scheme := some "wss", host := some name, port := none })
+    r.effPort = 443 ∧
+    (parseIp name = none → (resolve parseIp lookup r).lookups = [(name, 443)]) ∧
+    (∀ ip, parseIp name = some ip → (resolve parseIp lookup r).result = .ok { r with addr := .one { ip := ip, port := 443 } }) := by
+  intro r
+  have hs : schemePort Src.tlsSchemePorts (some "wss") = some 443 := by decide
+  have hp : r.effPort = 443 := by simp [r, Req.new, Req.effPort, hostOfUri, hs]
+  have ha : r.addr = .none := rfl
+  have hh : r.hostname = name := rfl
+  refine ⟨hp, ?_, ?_⟩
+  · intro hn
+    have hn' : parseIp r.hostname = none := by rw [hh]; exact hn
+    cases hl : lookup r.hostname r.effPort with
+    | fail => have := (resolver_error parseIp lookup r ha hn' hl).2; rw [this, hh, hp]
+    | ok l =>
+      cases l with
+      | nil => have := (no_records parseIp lookup r ha hn' hl).2; rw [this, hh, hp]
+      | cons x t =>
+        obtain ⟨_, _, _, _, _, _, _, h⟩ := resolver_answer_used parseIp lookup r (x :: t) ha hn' hl (by simp)
+        rw [h, hh, hp]
+  · intro ip hi
+    have := (ip_literal_direct parseIp lookup r ip ha (by rw [hh]; exact hi)).1
+    rw [this, hp]
+
 /-! ### TCP connector: ordered fallback -/
 
 /-- unresolved input to the TCP connector is `Unresolved`, and nothing is dialled -/
@@ -308,6 +361,10 @@ example : Fails conn1 a1 ∧ Fails conn1 a2 ∧ conn1 a3 = .ok 4003 := ⟨⟨111
 example : (resolve pIp (Path.build (fun _ _ => Lookup.fail) Path.cf lk).cfg (Req.new (hostOfString "two.test:443"))).lookups = [("two.test", 443)] := by decide
 example : (resolve pIp (Path.build (fun _ _ => Lookup.fail) Path.cf lk).cfg (Req.new (hostOfString "empty.test:1"))).lookups = [("empty.test", 1)] := by decide
 example : Path.cf.isDefault = false ∧ Path.df.isDefault = true := by decide
+example : (hostOfUri Src.tlsSchemePorts { scheme := some "wss", host := some "a.test", port := none }) = { hostname := "a.test", port := some 443 } := by decide
+example : (hostOfUri Src.tlsSchemePorts { scheme := some "ws", host := some "a.test", port := some 8080 }).port = some 8080 := by decide
+example : (hostOfUri Src.tlsSchemePorts { scheme := some "gopher", host := some "a.test", port := none }).port = none := by decide
+example : (resolve pIp lk (Req.new (hostOfUri Src.tlsSchemePorts { scheme := some "mqtts", host := some "two.test", port := none }))).lookups = [("two.test", 8883)] := by decide
 example : tlsConnect (fun n => n != "") (fun (c : List String) n => c.contains n) (hostOfString "a.test:443") ["a.test"]
     = .established "a.test" := by decide
 example : tlsConnect (fun n => n != "") (fun (c : List String) n => c.contains n) (hostOfString "b.test:443") ["a.test"]
